@@ -677,7 +677,7 @@ Lemma exec_node_S : forall (f : nat) (st : mstate) (n : node), exec_node (S f) s
                   | Ok (w, st3) =>
                       match to_float (vv c), to_float (vv m), to_float (vv w) with
                       | Some fc, Some fm, Some fw =>
-                          let v := f_round_to_int (f_mul (f_div fc fm) fw) in
+                          let v := if f_is_zero fm then 0%Z else f_round_to_int (f_mul (f_div fc fm) fw) in
                           match ctxname with
                           | [] => xok (itoa v) st3
                           | _ => match set_priv st3 ctxname (CV (as_value (VInt v))) with
